@@ -103,6 +103,10 @@ pub enum Post {
     CallSp,
     /// specify the i-th struct of ANOTHER mk node (must panic) if cond != 0
     SpecOther { cond: Ex, node: u8, idx: u8, val: Ex },
+    /// impure user code: before creating this entity, specify `sp` on the handle this creator
+    /// obtained for it in its PREVIOUS execution (kept outside salsa); must panic, because the
+    /// current execution has not created that struct
+    SpecPrev { val: Ex },
 }
 
 #[derive(Clone, Debug, PartialEq, Eq, Hash, Serialize, Deserialize)]
@@ -232,6 +236,7 @@ impl Ex {
                                 val.refs(out)
                             }
                             Post::CallSp => {}
+                            Post::SpecPrev { val } => val.refs(out),
                             Post::SpecOther { cond, node, val, .. } => {
                                 cond.refs(out);
                                 out.push(*node);
